@@ -20,7 +20,7 @@ APPROX_CLASSES = {"SolverVSA"}
 
 
 QUERY_OPS = {"sat", "eval", "batch_eval", "min", "max", "solution"}
-STRUCTURAL = {"new", "branch", "drop", "pickle", "add", "merge", "combine", "add_replacement"}
+STRUCTURAL = {"new", "branch", "drop", "pickle", "add", "merge", "combine", "add_replacement", "remove_replacement"}
 
 
 class Violation(Exception):
@@ -646,7 +646,7 @@ class Machine:
         w = self.variables[n]
         c = ["eq", ["var", n], ["const", v, w]]
         h.ref.add(c)
-        h.lineage.append(c)
+        h.lineage.append(c + ["by-add-replacement"])
         h.pins.setdefault(n, v)
         if self.dry:
             return ["added"]
@@ -657,6 +657,37 @@ class Machine:
         if res[0] != "ok":
             self.unexpected(h, op, res[1])
         return ["replaced"]
+
+    def op_remove_replacement(self, op):
+        """SolverReplacement.remove_replacements([var]) for a replacement the user set with add_replacement() (it is not
+        backed by a constraint): the variable is free again"""
+        h = self.H(op)
+        n = op["var"]
+        if not h.conj:
+            raise _Skip("model set is not the conjunction of the lineage")
+        idx = [i for i, c in enumerate(h.lineage) if isinstance(c, list) and c[-1] == "by-add-replacement" and c[1] == ["var", n]]
+        if not idx:
+            raise _Skip("no such replacement")
+        # a constraint added while the replacement was active reached the actual solver with the variable already replaced:
+        # removing the replacement does not bring the variable back there.  Only the case without such constraints has an
+        # unambiguous meaning (the variable is free again; what was memoised for compound terms must go with it).
+        if any(n in S.spec_vars(c) for c in h.lineage[idx[0] + 1:]):
+            raise _Skip("a later constraint mentions the variable")
+        keep = [c for i, c in enumerate(h.lineage) if i not in idx]
+        h.lineage = keep
+        h.pins.pop(n, None)
+        ref = self.ref0()
+        for c in keep:
+            ref.add(c[:3] if c[-1] == "by-add-replacement" else c)
+        h.ref = ref
+        if self.dry:
+            return ["removed"]
+        if not hasattr(h.solver, "remove_replacements"):
+            raise _Skip("not a replacement frontend")
+        res = self.call(h.solver.remove_replacements, {self.ast(["var", n]).hash()})
+        if res[0] != "ok":
+            self.unexpected(h, op, res[1])
+        return ["removed"]
 
     def op_simplify(self, op):
         h = self.H(op)
